@@ -744,3 +744,173 @@ impl BReq {
 pub fn reply_header_ok(h: &Hdr, req_code: u32) -> bool {
     h.code == req_code && h.flags & F_REPLY != 0 && h.flags & 0x3 == VERSION && h.flags & !0xf == 0
 }
+
+// --- typed gpu requests (vhost-user-gpu.rst: "VhostUserGpuMsg") ---------------------------------
+
+#[derive(Clone, Debug, PartialEq)]
+pub enum GReq {
+    GetProtocolFeatures,
+    SetProtocolFeatures(u64),
+    GetDisplayInfo,
+    CursorPos { scanout_id: u32, x: u32, y: u32 },
+    CursorPosHide { scanout_id: u32, x: u32, y: u32 },
+    CursorUpdate { scanout_id: u32, x: u32, y: u32, hot_x: u32, hot_y: u32, data: Vec<u8> },
+    Scanout { scanout_id: u32, width: u32, height: u32 },
+    Update { scanout_id: u32, x: u32, y: u32, width: u32, height: u32, data: Vec<u8> },
+    DmabufScanout { f: [u32; 10], with_fd: bool },
+    DmabufScanout2 { f: [u32; 10], modifier: u64, with_fd: bool },
+    DmabufUpdate { scanout_id: u32, x: u32, y: u32, width: u32, height: u32 },
+    GetEdid { scanout_id: u32 },
+}
+
+impl GReq {
+    pub fn code(&self) -> u32 {
+        match self {
+            GReq::GetProtocolFeatures => gr::GET_PROTOCOL_FEATURES,
+            GReq::SetProtocolFeatures(_) => gr::SET_PROTOCOL_FEATURES,
+            GReq::GetDisplayInfo => gr::GET_DISPLAY_INFO,
+            GReq::CursorPos { .. } => gr::CURSOR_POS,
+            GReq::CursorPosHide { .. } => gr::CURSOR_POS_HIDE,
+            GReq::CursorUpdate { .. } => gr::CURSOR_UPDATE,
+            GReq::Scanout { .. } => gr::SCANOUT,
+            GReq::Update { .. } => gr::UPDATE,
+            GReq::DmabufScanout { .. } => gr::DMABUF_SCANOUT,
+            GReq::DmabufScanout2 { .. } => gr::DMABUF_SCANOUT2,
+            GReq::DmabufUpdate { .. } => gr::DMABUF_UPDATE,
+            GReq::GetEdid { .. } => gr::GET_EDID,
+        }
+    }
+    pub fn name(&self) -> &'static str {
+        match self {
+            GReq::GetProtocolFeatures => "GPU_GET_PROTOCOL_FEATURES",
+            GReq::SetProtocolFeatures(_) => "GPU_SET_PROTOCOL_FEATURES",
+            GReq::GetDisplayInfo => "GPU_GET_DISPLAY_INFO",
+            GReq::CursorPos { .. } => "GPU_CURSOR_POS",
+            GReq::CursorPosHide { .. } => "GPU_CURSOR_POS_HIDE",
+            GReq::CursorUpdate { .. } => "GPU_CURSOR_UPDATE",
+            GReq::Scanout { .. } => "GPU_SCANOUT",
+            GReq::Update { .. } => "GPU_UPDATE",
+            GReq::DmabufScanout { .. } => "GPU_DMABUF_SCANOUT",
+            GReq::DmabufScanout2 { .. } => "GPU_DMABUF_SCANOUT2",
+            GReq::DmabufUpdate { .. } => "GPU_DMABUF_UPDATE",
+            GReq::GetEdid { .. } => "GPU_GET_EDID",
+        }
+    }
+    pub fn body(&self) -> Vec<u8> {
+        let mut v = Vec::new();
+        match self {
+            GReq::GetProtocolFeatures | GReq::GetDisplayInfo => {}
+            GReq::SetProtocolFeatures(x) => p64(&mut v, *x),
+            // VhostUserGpuCursorPos: u32 scanout_id, u32 x, u32 y
+            GReq::CursorPos { scanout_id, x, y } | GReq::CursorPosHide { scanout_id, x, y } => {
+                p32(&mut v, *scanout_id);
+                p32(&mut v, *x);
+                p32(&mut v, *y);
+            }
+            // VhostUserGpuCursorUpdate: pos, u32 hot_x, u32 hot_y, u32 data[64*64]
+            GReq::CursorUpdate { scanout_id, x, y, hot_x, hot_y, data } => {
+                p32(&mut v, *scanout_id);
+                p32(&mut v, *x);
+                p32(&mut v, *y);
+                p32(&mut v, *hot_x);
+                p32(&mut v, *hot_y);
+                v.extend_from_slice(data);
+            }
+            // VhostUserGpuScanout: u32 scanout_id, u32 width, u32 height
+            GReq::Scanout { scanout_id, width, height } => {
+                p32(&mut v, *scanout_id);
+                p32(&mut v, *width);
+                p32(&mut v, *height);
+            }
+            // VhostUserGpuUpdate: u32 scanout_id, x, y, width, height, u8 data[]
+            GReq::Update { scanout_id, x, y, width, height, data } => {
+                for f in [scanout_id, x, y, width, height] {
+                    p32(&mut v, *f);
+                }
+                v.extend_from_slice(data);
+            }
+            GReq::DmabufUpdate { scanout_id, x, y, width, height } => {
+                for f in [scanout_id, x, y, width, height] {
+                    p32(&mut v, *f);
+                }
+            }
+            // VhostUserGpuDMABUFScanout: scanout_id, x, y, width, height, fd_width, fd_height,
+            // fd_stride, fd_flags, fd_drm_fourcc (10 x u32)
+            GReq::DmabufScanout { f, .. } => {
+                for x in f {
+                    p32(&mut v, *x);
+                }
+            }
+            // ...Scanout2: the above followed by u64 modifier
+            GReq::DmabufScanout2 { f, modifier, .. } => {
+                for x in f {
+                    p32(&mut v, *x);
+                }
+                p64(&mut v, *modifier);
+            }
+            GReq::GetEdid { scanout_id } => p32(&mut v, *scanout_id),
+        }
+        v
+    }
+    pub fn nfds(&self) -> usize {
+        match self {
+            GReq::DmabufScanout { with_fd, .. } | GReq::DmabufScanout2 { with_fd, .. } => *with_fd as usize,
+            _ => 0,
+        }
+    }
+    /// size of the reply the protocol defines (None = no reply)
+    pub fn reply_size(&self) -> Option<usize> {
+        match self {
+            GReq::GetProtocolFeatures => Some(8),
+            GReq::GetDisplayInfo => Some(gr::DISPLAY_INFO_SIZE),
+            GReq::GetEdid { .. } => Some(gr::EDID_RESP_SIZE),
+            GReq::DmabufUpdate { .. } => Some(0),
+            _ => None,
+        }
+    }
+}
+
+/// Size of the fixed-size payload struct of a front-end request (None = variable).
+pub fn freq_fixed_size(code: u32) -> Option<usize> {
+    Some(match code {
+        fr::GET_FEATURES | fr::SET_OWNER | fr::RESET_OWNER | fr::GET_PROTOCOL_FEATURES | fr::GET_QUEUE_NUM
+        | fr::SET_BACKEND_REQ_FD | fr::GPU_SET_SOCKET | fr::RESET_DEVICE | fr::GET_MAX_MEM_SLOTS
+        | fr::CHECK_DEVICE_STATE | fr::GET_SHMEM_CONFIG => 0,
+        fr::SET_FEATURES | fr::SET_PROTOCOL_FEATURES | fr::SET_VRING_NUM | fr::SET_VRING_BASE | fr::GET_VRING_BASE
+        | fr::SET_VRING_KICK | fr::SET_VRING_CALL | fr::SET_VRING_ERR | fr::SET_VRING_ENABLE
+        | fr::SET_DEVICE_STATE_FD => 8,
+        fr::SET_LOG_BASE | fr::GET_SHARED_OBJECT => 16,
+        fr::SET_VRING_ADDR | fr::ADD_MEM_REG | fr::REM_MEM_REG => 40,
+        fr::GET_INFLIGHT_FD | fr::SET_INFLIGHT_FD => 24,
+        _ => return None,
+    })
+}
+
+impl FReq {
+    /// Like `decode`, but a fixed-size request may carry surplus payload bytes (whether that is
+    /// an error is not among the validity rules the properties list). A payload *shorter* than
+    /// the structure still fails: dispatching it would mean reading outside the message.
+    pub fn decode_prefix(code: u32, b: &[u8]) -> Option<FReq> {
+        match freq_fixed_size(code) {
+            Some(k) if b.len() >= k => FReq::decode(code, &b[..k]),
+            Some(_) => None,
+            None => FReq::decode(code, b),
+        }
+    }
+}
+
+impl BReq {
+    pub fn decode_prefix(code: u32, b: &[u8]) -> Option<BReq> {
+        let k = match code {
+            br::CONFIG_CHANGE_MSG => 0,
+            br::SHARED_OBJECT_ADD | br::SHARED_OBJECT_REMOVE | br::SHARED_OBJECT_LOOKUP => 16,
+            br::SHMEM_MAP | br::SHMEM_UNMAP => 40,
+            _ => return None,
+        };
+        if b.len() >= k {
+            BReq::decode(code, &b[..k])
+        } else {
+            None
+        }
+    }
+}
